@@ -26,6 +26,15 @@ claim("C13",
       "table contents are dumped from the compiled package on every run (after init) and assumed unmodified afterwards (the C18 frame claim); "
       "products of symbolic integers uninterpreted outside lemmas; contracts of ECBlocks methods applied to interior pointers &v.ecBlocks[i].")
 
-for p in ["C01","C02","C03","C04","C05","C06","C07","C08","C09","C10","C12","C14","C15","C17","C18","C19"]:
+claim("C10",
+      "UPC/EAN mod-10: upceanReader_getStandardUPCEANChecksum is proved equal to the standard formula (recursive digit-sum spec, weights 3/1 from the right) and to "
+      "fail exactly on a non-digit; checkStandardUPCEANChecksum is proved to accept exactly 'last digit == mod10(prefix)'; convertUPCEtoUPCA is proved equal to the "
+      "zero-suppression expansion character by character; the EAN-13, EAN-8 and UPC-E writers carry a proved assertion that the canonical contents end in the standard "
+      "check digit (UPC-E: of the expanded number) on both the computed and the supplied path; onedWriter_checkNumeric is proved to accept exactly digit strings; "
+      "EAN-5 extensionChecksum and determineCheckDigit are proved against formula and table; parity tables (EAN-5, UPC-E vs EAN-13 first digit) proved by cases over the dumped tables. "
+      "Not covered: Code 128 mod-103 and Code 93 C/K checksums, the single-substitution detection lemmas, EAN-2 parity.",
+      "strings are canonical ids with length/character functions; strconv.Itoa stubbed (exact for 0..9); range-over-string abstracted (ASCII exact); tables dumped from the compiled package.")
+
+for p in ["C01","C02","C03","C04","C05","C06","C07","C08","C09","C12","C14","C15","C17","C18","C19"]:
     na(p, NOTYET)
 na("C11", "The library has no Aztec writer: 'conforming symbol' would have to be a hand-written restatement of ISO/IEC 24778 (a model, not the code), and the image-to-bits path is a float-geometry detector; no contract on one call of the real code expresses the property. The Aztec decoder's totality is covered under C06.")
